@@ -3,9 +3,12 @@
    * the name walker — the only place where compression pointers could loop — returns a value or
      an error for every byte string and every start position, within 34*(|buf|+2) iterations;
    * NO call of ANY script (conforming or not) over any messages reaches an out-of-bounds access;
-   * every cursor primitive returns a value or an error on every well-formed cursor. *)
+   * every cursor primitive returns a value or an error on every well-formed cursor;
+   * each of the 17 typed RDATA decoders, label iteration over a borrowed name and NameRef::eq return
+     a value or an error value for every byte string, RDLENGTH and position: no arithmetic panic
+     (WKS `rd_len - 5`, TXT `rd_len -= len + 1`), no debug assertion, the loops terminate. *)
 From RsdnsModel Require Import Base Cursor Names Labels Header Tracker RData Reader Script.
-From RsdnsModel.Proofs Require Import CursorSafe LabelsTotal NoUB.
+From RsdnsModel.Proofs Require Import CursorSafe LabelsTotal NoUB Defined.
 Open Scope N_scope.
 
 Theorem C01_name_walk_total : forall msg nk c, cwf msg c ->
@@ -42,3 +45,14 @@ Proof.
   - apply c_close_window_defined.
   - intro Hn. apply c_be_defined; assumption.
 Qed.
+
+Theorem C01_rdata_total : forall msg ty rd m c, read_rdata msg ty rd = Some m -> cwf msg c ->
+  cwf msg (fst (m c)) /\ defined (snd (m c)).
+Proof.
+  intros msg ty rd m c H Hc. destruct (read_rdata_defined msg ty rd m H c Hc I) as [H1 H2].
+  split; [assumption|]. destruct (snd (m c)); cbn; tauto.
+Qed.
+
+Theorem C01_borrowed_names_total : forall msg c1 c2, cwf msg c1 -> cwf msg c2 ->
+  defined (nameref_eq msg c1 c2) /\ defined (labels_drain msg c1).
+Proof. intros. split; [apply nameref_eq_defined|apply labels_drain_defined]; assumption. Qed.
